@@ -269,6 +269,50 @@ pub fn seam_point(rng: &mut Rng, eps: f64) -> (f64, f64) {
     }
 }
 
+/// a point at angular distance eps, in a random direction, from the unit vector c; returned as (theta, phi)
+pub fn point_near(rng: &mut Rng, c: [f64; 3], eps: f64) -> (f64, f64) {
+    // orthonormal tangent frame at c
+    let h = if c[2].abs() < 0.9 { [0.0, 0.0, 1.0] } else { [1.0, 0.0, 0.0] };
+    let mut u = [c[1] * h[2] - c[2] * h[1], c[2] * h[0] - c[0] * h[2], c[0] * h[1] - c[1] * h[0]];
+    let ul = (u[0] * u[0] + u[1] * u[1] + u[2] * u[2]).sqrt();
+    for x in u.iter_mut() {
+        *x /= ul;
+    }
+    let w = [c[1] * u[2] - c[2] * u[1], c[2] * u[0] - c[0] * u[2], c[0] * u[1] - c[1] * u[0]];
+    let a = std::f64::consts::TAU * rng.unit();
+    // c + tan(eps) * direction keeps full relative precision of eps down to 1e-16
+    let t = eps.tan();
+    let p = [c[0] + t * (a.cos() * u[0] + a.sin() * w[0]), c[1] + t * (a.cos() * u[1] + a.sin() * w[1]), c[2] + t * (a.cos() * u[2] + a.sin() * w[2])];
+    // polar angle from atan2 of the horizontal length: acos loses everything below 1e-8 next to a pole
+    (p[1].atan2(p[0]), (p[0] * p[0] + p[1] * p[1]).sqrt().atan2(p[2]))
+}
+
+/// unit vector of the centre of face i
+pub fn face_axis(i: usize) -> [f64; 3] {
+    let o = &get_origins()[i];
+    let (t, p) = (o.axis.theta().get(), o.axis.phi().get());
+    [p.sin() * t.cos(), p.sin() * t.sin(), p.cos()]
+}
+
+/// the 20 dodecahedron vertices: normalised sums of three mutually adjacent face centres
+pub fn dodecahedron_vertices() -> Vec<[f64; 3]> {
+    let ax: Vec<[f64; 3]> = (0..12).map(face_axis).collect();
+    let d = |a: [f64; 3], b: [f64; 3]| a[0] * b[0] + a[1] * b[1] + a[2] * b[2];
+    let mut v = Vec::new();
+    for i in 0..12 {
+        for j in (i + 1)..12 {
+            for k in (j + 1)..12 {
+                if d(ax[i], ax[j]) > 0.4 && d(ax[i], ax[k]) > 0.4 && d(ax[j], ax[k]) > 0.4 {
+                    let s = [ax[i][0] + ax[j][0] + ax[k][0], ax[i][1] + ax[j][1] + ax[k][1], ax[i][2] + ax[j][2] + ax[k][2]];
+                    let l = d(s, s).sqrt();
+                    v.push([s[0] / l, s[1] / l, s[2] / l]);
+                }
+            }
+        }
+    }
+    v
+}
+
 /// a point at signed distance ~eps from the seam between two given adjacent faces (positive: on i's side),
 /// at parameter t along the seam (0 = edge midpoint)
 pub fn edge_point(i: usize, j: usize, t: f64, eps: f64) -> (f64, f64) {
@@ -545,6 +589,16 @@ pub fn lookup_point(rng: &mut Rng) -> (f64, f64) {
         6 => (360.0 * rng.unit() - 180.0, if rng.chance(1, 2) { 90.0 } else { -90.0 }),
         _ => (360.0 * rng.unit() - 180.0, (if rng.chance(1, 2) { 1.0 } else { -1.0 }) * (60.0 + 30.0 * rng.unit())),
     }
+}
+
+/// a point 10^-u rad (u = 2..14) from one of the 12 face centres (two of them the poles), as (lon, lat): the centre
+/// is a corner of five cells at every resolution >= 1, and the planar azimuth there is decided by the last bits
+pub fn centre_region_point(rng: &mut Rng) -> (f64, f64) {
+    let i = rng.below(12) as usize;
+    let e = 10f64.powf(-(2.0 + 12.0 * rng.unit()));
+    let (t, p) = point_near(rng, face_axis(i), e);
+    let ll = to_lon_lat(Spherical::new(Radians::new_unchecked(t), Radians::new_unchecked(p)));
+    (ll.longitude(), ll.latitude().clamp(-90.0, 90.0))
 }
 
 /// a point within 10^-u rad (u = 0.5..6) of one of the 20 dodecahedron vertices, as (lon, lat)
